@@ -22,7 +22,7 @@ CHECKS = {
              "(in-memory, SQLite RDB, cached RDB, journal file with both locks, journal fakeredis, gRPC proxy over "
              "in-memory/RDB/journal) and TLC validates every recorded trace: each reply, each error class and the full "
              "read-back state after every call must be a step of the contract (histories include interleaved multi-study use, "
-             "repeated overwrites with non-finite values, templates edited by the caller after the call and point reads before "
+             "repeated overwrites with non-finite values, templates edited by the caller after the call, the WAITING-filtered listing repeated around claims, and point reads before "
              "bulk reads). In addition every storage call that optuna's OWN test files make (test_storages, test_cached_storage, "
              "test_trial; thorough: study/journal/pruner/sampler tests) is recorded by a pytest plugin outside the repository, "
              "grouped per backend state and validated by TLC against the same specification (about 440 traces / 6800 calls "
@@ -232,8 +232,8 @@ CHECKS = {
              "for every flipped subset) with the theorem Decide(dir, v) = Decide(flip(dir), -v) checked exhaustively by TLC "
              "(a model with the percentile side not flipped must fail). 126 scenarios per run (every single-objective "
              "sampler x pruner pair incl. GP, 24 two-objective scenarios with all flip subsets): mirrored real runs with "
-             "exactly negatable pairwise-distinct values (dyadic, and small integers where a value regularly equals the "
-             "interpolated percentile; Wilcoxon instance-style programs) form one trace with sign-normalised keys "
+             "exactly negatable pairwise-distinct values (dyadic; small integers where a value regularly equals the "
+             "interpolated percentile; multiples of 0.1 with min_delta 0.1-0.3, where additions round; Wilcoxon instance-style programs) form one trace with sign-normalised keys "
              "(Functional.tla); every "
              "suggested value, should_prune answer, final state and best trial(s) must agree.",
         note="Thin for the sampler mathematics (covered by functional agreement of the mirrored runs). Known findings K11 "
